@@ -5,6 +5,7 @@ CONF = {
     "campaigns": [rapid("rapid", 40000, 800000)],
     "assumptions": [
         "a trailing falco-ignore is generated only on simple statements; every -start has its -end; independent ranges do not overlap each other; declaration statements (whose unused-* diagnostics are emitted later) are never covered",
+        "a -start/-end range is lexical: the pair may cross block and subroutine boundaries and covers every statement between the two comments; for such pairs unused/* diagnostics and diagnostics located on a `sub` line (raised by passes that do not run while the range is open) are left out of the comparison",
         "stacked falco-ignore-next-line comments in front of one statement cover the union of their rule lists; rule-listed -start comments accumulate until `falco-ignore-end <rules>` re-enables those rules or a bare -end re-enables all (docs/linter.md, Range ignoring, last example)",
         "falco-ignore-next-line on an if statement covers the whole compound statement",
     ],
